@@ -210,6 +210,7 @@ func genC01(c *Ctx) {
 			h := crypto.NewExpandMsgXOFKMAC128(tag)
 			hpoint := hashPoint(msg, h)
 			sig, err := key.sk.Sign(msg, h)
+			hold("Sign", sig)
 			if err != nil {
 				panic(err)
 			}
@@ -305,6 +306,7 @@ func genC01(c *Ctx) {
 			for i := 0; i < nTags; i++ {
 				h := crypto.NewExpandMsgXOFKMAC128(tagOf(i))
 				sig, err := sk.Sign(msg, h)
+				hold("Sign", sig)
 				if err != nil {
 					panic(err)
 				}
